@@ -121,13 +121,13 @@ def families(tier):
         vs = (1, 3, NOP)
         shapes = [["e == 0", "k <= 1"], ["e == 0", "k == 2"]] + [["e == 0"] + q for q in k3] + [["e == 1", "k <= 1"]] + [["e == 1"] + q for q in k2]
     else:
+        pre += ["e == 0 or k <= 2", "e == 0 or v == %d or v == 1 or v == 3" % NOP]
         vs = range(NOP + 1)
-        shapes = [["e == 0", "k <= 1"], ["e == 0", "k == 2"]] + [["e == 0"] + q for q in k3] + [["e == 1", "k <= 1"]] + \
-                 [["e == 1"] + q for q in k2] + [["e == 1"] + q + [r] for q in k3 for r in ("i2 <= 2", "i2 >= 3")]
+        shapes = [["e == 0", "k <= 1"], ["e == 0", "k == 2"]] + [["e == 0"] + q for q in k3] + [["e == 1", "k <= 1"]] + [["e == 1"] + q for q in k2]
     parts = []
     for v in vs:
         for q in shapes:
-            if not thorough and v != NOP and "e == 1" in q:
+            if "e == 1" in q and ((not thorough and v != NOP) or (thorough and v not in (NOP, 1, 3))):
                 continue
             if VAR[v] in ("rel", "cancel", "fail") and "e == 1" in q:
                 parts += [["v == %d" % v, a] + q for a in ("av <= 2", "av == 3", "av >= 4")]
